@@ -148,6 +148,7 @@ class Evaluator(object):
             'sum': sum, 'any': any, 'all': all, 'sorted': sorted,
             'enumerate': enumerate, 'zip': zip, 'abs': abs, 'str': str,
             'int': int, 'repr': repr, 'iter': iter, 'filter': filter,
+            'next': next,
             'map': map,
             'reversed': lambda x: list(reversed(list(x))),
         }
@@ -406,6 +407,10 @@ class Evaluator(object):
                         name = exc.value.kind
                 else:
                     name = type(exc).__name__
+                # a python exception of a stand-in is caught by the names
+                # of all its base classes
+                mro_names = [c.__name__ for c in type(exc).__mro__] \
+                    if not isinstance(exc, Raised) else [name]
                 for h in st.handlers:
                     if h.type is None:
                         names = None
@@ -414,6 +419,9 @@ class Evaluator(object):
                     else:
                         names = [ast.unparse(h.type)]
                     if names is None or name in names or \
+                            any(n_ in names for n_ in mro_names
+                                if n_ not in ('Exception', 'BaseException',
+                                              'object')) or \
                             ('Exception' in names and not base_only) or \
                             'BaseException' in names:
                         eobj = getattr(exc, 'value', None)
@@ -499,6 +507,13 @@ class Evaluator(object):
         if isinstance(v, Unknown):
             self.err(node, 'branch on unknown value %r' % v)
         if isinstance(v, Obj):
+            # python truth protocol of the object's class, if it has one
+            cm = self.class_methods.get(v.__dict__['_cls'], {})
+            for name in ('__bool__', '__len__'):
+                fd = cm.get(name)
+                if fd is not None:
+                    ret, _ = self.call(fd, [], self_obj=v)
+                    return bool(ret)
             return True
         return bool(v)
 
@@ -629,6 +644,10 @@ class Evaluator(object):
                 return ret
             if e.attr == '__class__':
                 return Obj('type', __name__=base.__dict__['_cls'])
+            if base.__dict__.get('_closed'):
+                # an object built entirely by evaluated code: what it
+                # lacks, the real object lacks
+                raise Raised('AttributeError(%r)' % e.attr)
             self.err(e, 'abstract object lacks attribute')
         if isinstance(base, RegexConst) and e.attr in (
                 'match', 'sub', 'search', 'split', 'findall', 'fullmatch',
@@ -1043,8 +1062,8 @@ class Evaluator(object):
             if f[1] in (map, filter) and args:
                 args[0] = self.as_callable(args[0])
             if f[1] in (list, tuple, sorted, set, frozenset, sum, any, all,
-                        min, max, enumerate, zip) and args and isinstance(
-                    args[0], Obj):
+                        min, max, enumerate, zip, iter) and args and \
+                    isinstance(args[0], Obj):
                 args[0] = self.iterate(args[0], e)
             return f[1](*args, **kwargs)
         if isinstance(f, tuple) and f[0] == 'regex':
